@@ -80,7 +80,9 @@ def dec(b):
 
 
 def value(tag, n, payload="dict"):
-    v = {"t": tag, "p": (f"<{tag}>".encode() * (n // 3 + 1))[:n]}
+    # (tags are stored with a constant offset so that every tag has the same encoded length: two records with the same
+    #  payload size are then blocks of exactly the same length - the coincidence size-based shortcuts stumble over)
+    v = {"t": 1000 + tag, "p": (f"<{tag:04d}>".encode() * (n // 6 + 1))[:n]}
     if payload == "mol":
         v["c"] = ((float(tag % 7), 0.0, 0.0), (0.0, 1.0, 0.0), (0.0, 0.0, float(1 + tag % 3)))
     return v
@@ -157,7 +159,7 @@ def gen_plan(r, tier, index):
                     if r.random() < 0.12:
                         key = r.choice(shared_keys)
                     else:
-                        key = f"p{p}s{s}k{tag}"
+                        key = f"p{p:02d}s{s}k{tag:04d}"     # fixed width: records with equal payload sizes are equally long blocks
                     n = r.choice([0, 1, 10, 10, 60, 200, 200, 3000, 9000])
                     sess["ops"].append({"op": "put", "k": key, "v": [tag, n]})
                 if r.random() < 0.3:
@@ -199,8 +201,35 @@ def gen_plan(r, tier, index):
                 sess["ops"] = [o for o in sess["ops"] if o["op"] in ("put", "stall")]
                 while sum(o["op"] == "put" for o in sess["ops"]) < 3:
                     tag += 1
-                    sess["ops"].append({"op": "put", "k": f"p{procs[a]['pid']}s{ship_dirty[1]}k{tag}", "v": [tag, r.choice([1, 10, 60])]})
+                    sess["ops"].append({"op": "put", "k": f"p{procs[a]['pid']:02d}s{ship_dirty[1]}k{tag:04d}", "v": [tag, r.choice([1, 10, 60])]})
+    # A directed scenario next to the random ones (size coincidences are what end-offset / file-size shortcuts stumble over):
+    # a long-lived handle loses a record in a failing flush-on-close, another process then appends a record of exactly the
+    # same length, and the first handle is used again (reading or writing).
+    same_size = None
+    if (nproc >= 2 and not create_race and not any("ships" in p_ or "adopts" in p_ for p_ in procs)
+            and all(h_["lib"] < nlibs for p_ in procs for h_ in p_["handles"]) and r.random() < 0.05):
+        a, b = 0, 1
+        n_ = r.choice([1, 10, 60, 200])
+        libx = procs[a]["handles"][0]["lib"]
+        procs[a]["handles"][0].update({"readonly": False, "coll_bufsize": r.choice([-1, 0]), "pickled": False})
+        hb = next((i for i, h_ in enumerate(procs[b]["handles"]) if h_["lib"] == libx), None)
+        if hb is None:
+            procs[b]["handles"][0]["lib"] = libx
+            hb = 0
+        procs[b]["handles"][hb]["readonly"] = False
+        tag += 3
+        procs[a]["script"] = [
+            {"h": 0, "kind": "w", "catch": False, "think": 0, "timeout": None, "ops": [{"op": "put", "k": f"p{procs[a]['pid']:02d}s0k{tag - 2:04d}", "v": [tag - 2, n_]}]},
+            {"h": 0, "kind": r.choice(["r", "w"]), "catch": False, "think": 0.3, "timeout": None, "ops": []},
+        ] + procs[a]["script"][:2]
+        second = procs[a]["script"][1]
+        second["ops"] = [{"op": "read_all"}] if second["kind"] == "r" else [{"op": "put", "k": f"p{procs[a]['pid']:02d}s1k{tag - 1:04d}", "v": [tag - 1, 5]}, {"op": "list"}]
+        procs[b]["script"] = [{"h": hb, "kind": "w", "catch": False, "think": 0.1, "timeout": None,
+                               "ops": [{"op": "put", "k": f"p{procs[b]['pid']:02d}s0k{tag:04d}", "v": [tag, n_]}]}] + procs[b]["script"][:2]
+        same_size = a
     faults = []
+    if same_size is not None:
+        faults.append({"kind": "eio", "pid": procs[same_size]["pid"], "op": "write", "nth": 1, "phase": "s0:exit", "arg": 1})
     wsessions = [(pi, si) for pi, p in enumerate(procs) for si, s in enumerate(p["script"]) if s["kind"] == "w"]
     anysessions = [(pi, si) for pi, p in enumerate(procs) for si, s in enumerate(p["script"])]
     if ship_dirty is not None:
@@ -233,7 +262,8 @@ def gen_plan(r, tier, index):
                            "nth": r.choice([1, 1, 2, 3]), "phase": f"s{si}:" + r.choice(["exit", "exit", "body"]),
                            "arg": r.randrange(1, 5000)})
     plan = {
-        "check": CHECK, "bufsize": r.choice([8192, 4096, 4096, 65536, 64]), "payload": r.choice(["dict", "dict", "dict", "mol"]),
+        "check": CHECK, "directed": "lost-close-then-same-size-append" if same_size is not None else None,
+        "bufsize": r.choice([8192, 4096, 4096, 65536, 64]), "payload": r.choice(["dict", "dict", "dict", "mol"]),
         "nlibs": nlibs, "create_race": create_race, "procs": procs, "faults": faults,
         "latency": r.choice([0, 0, 0, 0.0005, 0.004]),
         "sched": {"seed": r.randrange(1 << 30),
